@@ -197,8 +197,10 @@ theorem doPush_tr (st : State) (c now : Nat) (path : Path) (cmd : List Bytes) :
   simp only []
   split
   · split
-    · refine Tr.outbox _ ?_
-      exact h.trans ((notifyN_tr w q c _ _ _ _).trans (processWakes_tr w q _ c now))
+    · split
+      · exact h.trans (notifyN_tr w q c _ _ _ _)
+      · refine Tr.outbox _ ?_
+        exact h.trans ((notifyN_tr w q c _ _ _ _).trans (processWakes_tr w q _ c now))
     · exact h
   · exact h
 
@@ -250,13 +252,32 @@ theorem exec_tr (st : State) (now c : Nat) (r : Req) : Tr q (Disc w) c st (exec 
           · refine Tr.outbox _ ?_
             exact (dispatch_tr w q st c now false r).trans (processWakes_tr w q _ c now)
 
-theorem run_logs (evs : List Ev) : ∀ (st : State), Logs q (Disc w) st (run w q st evs) := by
+theorem timeoutConn_tr (st : State) (c : Nat) : Tr q (Disc w) c st (timeoutConn st c).1 := by
+  unfold timeoutConn
+  split
+  · exact Tr.trans (b := dropWaiters st c) ⟨Logs.of_eq rfl rfl, Others.of_eq rfl⟩ (Tr.updConn c _ _)
+  · exact Tr.refl c st
+
+theorem closeConn_tr (st : State) (c : Nat) : Tr q (Disc w) c st (closeConn st c) := by
+  unfold closeConn
+  split
+  · exact Tr.refl c st
+  · exact Tr.trans (b := dropWaiters st c) ⟨Logs.of_eq rfl rfl, Others.of_eq rfl⟩ (Tr.updConn c _ _)
+
+/-- every event of a history: a request, a time-out, a hang-up -/
+theorem stepEv_tr (st : State) (e : Dbs.Ev) : Tr q (Disc w) e.conn st (stepEv w q st e) := by
+  cases e with
+  | req now c r => exact exec_tr w q st now c r
+  | timeout c => exact timeoutConn_tr w q st c
+  | close c => exact closeConn_tr w q st c
+
+theorem run_logs (evs : List Dbs.Ev) : ∀ (st : State), Logs q (Disc w) st (run w q st evs) := by
   induction evs with
   | nil => intro st; exact Logs.refl st
   | cons e rest ih =>
     intro st
     simp only [run, List.foldl_cons]
-    exact (exec_tr w q st e.now e.conn e.req).1.trans (ih _)
+    exact (stepEv_tr w q st e).1.trans (ih _)
 
 end A
 
@@ -417,8 +438,10 @@ theorem doPush_B (st : State) (now : Nat) (path : Path) (hpath : ∀ b, path ≠
   split
   · split
     · refine ha.trans (fun h' => ?_)
-      refine TrB.outbox _ ?_
-      exact (notifyN_B q i ns c _ h.1 _ _ _ h').trans (fun h'' => processWakes_B q i ns c _ now h'')
+      split
+      · exact notifyN_B q i ns c _ h.1 _ _ _ h'
+      · refine TrB.outbox _ ?_
+        exact (notifyN_B q i ns c _ h.1 _ _ _ h').trans (fun h'' => processWakes_B q i ns c _ now h'')
     · exact ha
   · exact ha
 
